@@ -75,7 +75,7 @@ def _rec_state(n=3):
     counter = [0]
 
     def gibbs_steps(k, initial_state, overwrite=False):
-        st.calls.append(dict(k=k, initial=initial_state, overwrite=overwrite, shape=tuple(initial_state.shape)))
+        st.calls.append(dict(k=k, initial=initial_state, overwrite=overwrite, shape=tuple(initial_state.shape), start=initial_state.clone()))
         counter[0] += 1
         # like the real gibbs_steps: a start state of another dtype is converted (a copy), so it is NOT advanced in place
         out = (initial_state if overwrite else initial_state.clone()).to(st.rbm_am.weights)
@@ -141,7 +141,12 @@ def schedule(I, system=False, user_chains=0, overwrite=False, composite=False, i
     num_samples, num_chains, burn_in, steps = I["num_samples"], I["num_chains"], I["burn_in"], I["steps"]
     st = _rec_state()
     o1, o2 = _observables()
-    if composite == "alias":
+    if composite == "library":
+        # the library's own observables, the one that converts spins first: each still gets the result it would get alone
+        from qucumber.observables import SigmaZ, NeighbourInteraction
+
+        o1, o2 = NeighbourInteraction(), SigmaZ()
+    elif composite == "alias":
         # a composite whose first term returns a view of the samples: evaluating it must not write into the chain state
         o1 = type(o1).Occupation() + 1.5
     elif composite == "offset":
@@ -186,6 +191,8 @@ def schedule(I, system=False, user_chains=0, overwrite=False, composite=False, i
             return False, "draw %d does not continue the previous chains in place" % i
         if c["shape"] != st.calls[0]["shape"]:
             return False, "draw %d runs %s chains, the first draw %s" % (i, c["shape"], st.calls[0]["shape"])
+        if init_dtype is None and not torch.equal(c["start"].to(torch.double), st.states[i - 1]):
+            return False, "draw %d starts from %s, but the previous draw left the chains at %s (evaluating the observables changed the chain state)" % (i, c["start"].tolist(), st.states[i - 1].tolist())
     for (ob, res) in ((o1, res1), (o2, res2)):
         if res is None:
             continue
@@ -216,6 +223,8 @@ def specs(tier):
     S.append(dict(name="schedule-observable", module="checks.c13", function="schedule", kwargs={}, inputs=sin))
     S.append(dict(name="schedule-system", module="checks.c13", function="schedule", kwargs=dict(system=True), inputs=sin))
     S.append(dict(name="schedule-composite", module="checks.c13", function="schedule", kwargs=dict(composite=True), inputs=dict(sin, burn_in=("int", 1, 1), steps=("int", 0, 1))))
+    S.append(dict(name="schedule-system-library-observables", module="checks.c13", function="schedule", kwargs=dict(composite="library", system=True), inputs=dict(sin, num_chains=("int", 0, 3), burn_in=("int", 0, 1), steps=("int", 1, 1))))
+    S.append(dict(name="schedule-library-observable-draws", module="checks.c13", function="schedule", kwargs=dict(composite="library"), inputs=dict(sin, num_chains=("int", 1, 2), burn_in=("int", 0, 1), steps=("int", 1, 1))))
     S.append(dict(name="schedule-system-aliasing-term", module="checks.c13", function="schedule", kwargs=dict(composite="alias", system=True), inputs=dict(sin, num_chains=("int", 0, 3), burn_in=("int", 0, 1), steps=("int", 1, 1))))
     S.append(dict(name="schedule-observable-aliasing-term", module="checks.c13", function="schedule", kwargs=dict(composite="alias"), inputs=dict(sin, num_chains=("int", 0, 3), burn_in=("int", 0, 1), steps=("int", 1, 1))))
     for dt in ("float32", "int64"):
